@@ -61,6 +61,47 @@ def date_classes(tier):
     return out, st
 
 
+def unmarked_on_grid(ck, rs, name, group, f, spec, P, F, date, seen):
+    sig = ("unmarked", f.__name__, repr(spec))
+    if sig in seen:
+        return
+    seen.add(sig)
+    label = f"{name}@{date}"
+    base, off = spec.get("base"), spec.get("to_add_after_rounding", 0)
+    try:
+        kw, syms = gt.rule_args(f, P)
+        v, ctx = R.run(f, kwargs=kw)
+        if v is None:
+            return
+        out = R.term_of(v, float)
+    except (R.Unsupported, KeyError) as e:
+        ck.add_inconclusive(f"spec without marker {label}: not encodable ({e})"[:160])
+        return
+    pre = list(ctx.assumptions)
+    for a, s_ in syms.items():
+        fa = F.get(a)
+        ga = getattr(fa, "__info__", {}).get("params_key_for_rounding") if fa is not None else None
+        sa = (rs.rounding(ga, date) or {}).get(a) if ga else None
+        if sa and "base" in sa:      # an argument that is itself a rounded column lies on its grid
+            pre.append(z3.IsInt((R.term_of(s_, float) - zfr(sa.get("to_add_after_rounding", 0))) / zfr(sa["base"])))
+    r, m = ck.oblige(f"spec applied or value on grid {label}", pre + [z3.Not(z3.IsInt((out - zfr(off)) / zfr(base)))], 60,
+                     sample={"rule": f.__name__, "date": str(date), "spec_from_yaml": dict(spec), "claim": "unmarked rule returns on-grid values only"})
+    ck.nontrivial.add(sig)
+    if r == "sat":
+        row = {a: R.model_value(m, s_) for a, s_ in syms.items()}
+        try:
+            val = float(f(**row, **{k: v_ for k, v_ in kw.items() if k.endswith("_params")}))
+        except Exception:   # noqa: BLE001
+            val = None
+        k = None if val is None else (val - float(off)) / float(base)
+        what = (f"{label}: the YAML of {group} holds the rounding specification {dict(spec)}, but the implementation in force ({f.__name__}) is not marked for "
+                f"rounding and returns {val!r} for {row}: the column is not rounded")
+        if k is not None and abs(k - round(k)) > 1e-6:
+            ck.violation(["spec-not-applied", name, f.__name__], what, {"kind": "marker", "name": name, "group": group, "date": str(date), "row": row})
+        else:
+            common.spurious("C10", what)
+
+
 def closure_sig(fn):
     """plain constants captured by the wrapper (base, direction, offset): two wrappers of the same stub with the
     same captured constants are the same function, so one proof serves both"""
@@ -322,6 +363,16 @@ def _chunk(ck, items):
     for date, with_derived in items:
         P, F = gt.env(date)
         rr = rounded_rules(F)
+        # every rounding specification in force must take effect: the rule registered under that name at this date
+        # carries the marker for that parameter group -- or, unmarked, provably returns values that are on the grid
+        # already (a pass-through of a rounded column).  A spec without a marked rule is silently ignored by the loader.
+        for group in rs_groups(rs):
+            specs_now = rs.rounding(group, date) or {}
+            for spec_name in sorted(specs_now):
+                f_active = F.get(spec_name)
+                if f_active is None or getattr(f_active, "__info__", {}).get("params_key_for_rounding") == group:
+                    continue
+                unmarked_on_grid(ck, rs, spec_name, group, f_active, specs_now[spec_name], P, F, date, seen)
         joint = [("one call over all functions", joint_wrappers(F, P, rr, False)),
                  ("one call over all functions, reversed order", joint_wrappers(F, P, rr, True))]
         for name, (f, key) in rr.items():
@@ -370,5 +421,19 @@ def replay(path):
         rep = replay_value(d["name"], date, d["x"], d.get("how", ""))
         print(rep)
         return 1 if rep["fails"] else 0
+    if d["kind"] == "marker":
+        from _gettsim.config import RESOURCE_DIR
+        P, F = gt.env(date)
+        f = F.get(d["name"])
+        marked = f is not None and getattr(f, "__info__", {}).get("params_key_for_rounding") == d["group"]
+        print("active implementation", getattr(f, "__name__", None), "marked:", marked)
+        if f is None or marked:
+            return 0
+        spec = ref.Resolver(RESOURCE_DIR / "parameters").rounding(d["group"], date)[d["name"]]
+        kw = {a: P[a[:-7]] for a in __import__("inspect").signature(f).parameters if a.endswith("_params")}
+        val = float(f(**d["row"], **kw))
+        k = (val - float(spec.get("to_add_after_rounding", 0))) / float(spec["base"])
+        print("value", val, "grid position", k)
+        return 1 if abs(k - round(k)) > 1e-6 else 0
     print("replay of kind", d["kind"], "= re-run the check")
     return 0
